@@ -222,6 +222,110 @@ def check_history(history):
     return out
 
 
+# ---------------------------------------------------------------------------------------------
+# two epochs: a process killed inside a set, then a new process on the same directory (the page cache survives a process
+# death, only a power loss drops what was not synced)
+
+KEPT = ('begin', 'ack', 'mkdir', 'create', 'trunc', 'write', 'fsync', 'fsync_dir', 'close')
+
+
+def volatile_state(prefix):
+    """What a new process sees after the old one died at this point of its trace: every effect so far, synced or not."""
+    dirs, files = {ROOT}, {}
+    for op in prefix:
+        if op[0] == 'mkdir':
+            dirs.add(op[1])
+        elif op[0] == 'create' or op[0] == 'trunc':
+            files[op[1]] = b''
+        elif op[0] == 'write':
+            files[op[1]] = files.get(op[1], b'') + op[2]
+    return sorted(dirs), files
+
+
+def record_epoch2(dirs, files, k, do_get, vi2):
+    fs = MemFS()
+    fs.mkdirs(ROOT)
+    for d in dirs:
+        fs.mkdirs(d)
+    for p, data in files.items():
+        fs.put(p, data)
+    _patch(fs)
+    st = KeyValueStorage(ROOT)
+    got = None
+    try:
+        if do_get:
+            try:
+                got = ('ok', cn(st.get(k)))
+            except Exception as e:      # noqa: BLE001 - a torn value of the killed set may not unpickle
+                got = ('exc', type(e).__name__)
+        fs.log.append(('begin', k, vi2))
+        st.set(k, VALUES[vi2])
+        fs.log.append(('ack', k, vi2))
+    finally:
+        st.cache.executor.shutdown(wait=True)
+        restore()
+    return [op for op in fs.log if op[0] in KEPT], got
+
+
+def two_epoch_cases(quick):
+    out = []
+    for k in (('a', 'd/x') if quick else KEYS):
+        for vi in ((0,) if quick else (0, 2)):
+            n = len(record([(k, vi)]))
+            for kill_at in range(1, n):             # after the begin marker, before the ack
+                for do_get in (False, True):
+                    for vi2 in (vi, 1):             # the same value again (a retried set) or another one
+                        out.append((k, vi, kill_at, do_get, vi2))
+    return out
+
+
+def check_two_epoch(case):
+    k, vi, kill_at, do_get, vi2 = case
+    out = {'images': 0, 'nontrivial': set(), 'prefixes': 0, 'violations': [], 'recoveries': 0, 'outcomes': set(),
+           'two_epoch_histories': 1}
+    t1 = record([(k, vi)])[:kill_at]
+    dirs, files = volatile_state(t1)
+    t2, got = record_epoch2(dirs, files, k, do_get, vi2)
+    name = 'set("%s",%s) killed after op %d/%d (%s) ; new process: %sset("%s",%s)' % (
+        k, VNAMES[vi], kill_at, len(t1), _opname(t1[-1]), ('get("%s") ; ' % k) if do_get else '', k, VNAMES[vi2])
+    for cut in range(len(t2) + 1):
+        if cut > 0 and t2[cut - 1][0] == 'begin':
+            continue
+        pre2 = t2[:cut]
+        acked = any(op[0] == 'ack' for op in pre2)
+        inflight = any(op[0] == 'begin' for op in pre2) and not acked
+        out['prefixes'] += 1
+        for img, idirs in images(t1 + pre2):
+            out['images'] += 1
+            res = recover(img, idirs)
+            out['recoveries'] += 1
+            out['nontrivial'].add(hash(('2', tuple(sorted(img.items())), tuple(idirs), cut)) & 0xffffffffffff)
+            out['outcomes'].add(hash(tuple(sorted(res.items()))) & 0xffffffff)
+            for key in KEYS:
+                r = res[key]
+                if key != k:
+                    if r == ('ok', U):
+                        continue
+                    cls, exp = 'never-set-key-not-undefined', ':undefined'
+                elif acked:
+                    if r == ('ok', cn(VALUES[vi2])):
+                        continue
+                    cls, exp = 'acknowledged-set-lost', VNAMES[vi2]
+                else:
+                    allowed = [('ok', U), ('ok', cn(VALUES[vi]))] + ([('ok', cn(VALUES[vi2]))] if inflight else [])
+                    if r[0] == 'exc' or r in allowed:
+                        continue
+                    cls, exp = 'inflight-key-reads-garbage', 'a value of an interrupted set, :undefined or an error'
+                at = 'power loss after op %d/%d of the new process (%s)' % (cut, len(t2), _opname(t2[cut - 1]) if cut else 'start')
+                out['violations'].append(dict(
+                    key='%s | %s | %s' % (name, at, cls), observed='key "%s" reads %s' % (key, _showres(r)), expected=exp,
+                    group=cls, case={'two_epoch': list(case), 'cut': cut, 'trace1': [_opname(o) for o in t1],
+                                     'trace2': [_opname(o) for o in t2],
+                                     'image': {p: '%d bytes' % len(d) for p, d in img.items()}, 'dirs': idirs},
+                    snippet=None))
+    return out
+
+
 def _opname(op):
     if op[0] == 'write':
         return 'write %s %dB' % (op[1], len(op[2]))
@@ -421,6 +525,15 @@ def run(cfg):
     total = {}
     for part in runner.pmap(work, hs, cfg):
         runner.merge_counts(total, part)
+    te = two_epoch_cases(cfg.quick)
+
+    def work2(chunk):
+        t = {}
+        for c in chunk:
+            runner.merge_counts(t, check_two_epoch(c))
+        return t
+    for part in runner.pmap(work2, te, cfg):
+        runner.merge_counts(total, part)
     rep.extend_violations(total.get('violations', []))
     conf_hist = [('a', 0), ('d/x', 2), ('a', 1), ('d/x', 0)]
     ok, detail = strace_conformance(conf_hist)
@@ -450,6 +563,8 @@ def run(cfg):
         'samples': [{'history': 'set("d/x",small1)', 'trace': sample_trace}],
         'exhaustive': True,
         'histories': len(hs),
+        'two_epoch_histories (process killed inside a set at every trace position, new process: [get,] set same/other value, '
+        'power loss at every position)': total.get('two_epoch_histories', 0),
         'trace_prefixes': total.get('prefixes', 0),
         'crash_images': total.get('images', 0),
         'distinct_recovery_outcomes': len(total.get('outcomes', ())),
